@@ -4,7 +4,7 @@ from . import common as c
 from . import seqrun as sr
 from .common import Broken, Outcome
 
-LIFE = {'Reset', 'open', 'close', 'put', 'scan', 'backup', 'backup_scan', 'copy', 'copy_scan', 'ls_before', 'open_wrongcmp', 'ls_after', 'destroy', 'ls_destroyed'}
+LIFE = {'Reset', 'open', 'close', 'put', 'scan', 'backup', 'backup_scan', 'copy', 'copy_scan', 'ls_before', 'open_wrongcmp', 'ls_after', 'destroy', 'ls_destroyed', 'backup_over', 'copy_over', 'backup_self'}
 
 
 def run_life(exe, seed, steps):
